@@ -177,6 +177,13 @@ def main():
                 sys.setswitchinterval(old)
             out.append({"threads": [finish(results[i], charts[i], items[i][0], items[i][1])
                                     for i in range(n)], "stats": stats})
+        elif op[0] == "forget":
+            # the client lets go of every chart it has parsed so far (their objects are released)
+            first.clear()
+            res = chart = None
+            import gc
+            gc.collect()
+            out.append({"forgot": True})
         else:
             raise SystemExit(f"unknown op {op}")
     shutil.rmtree(scratch, ignore_errors=True)
